@@ -1332,7 +1332,10 @@ impl AttributeValue {
             }
             AttributeValue::FileIndex(val) => {
                 debug_assert_form!(constants::DW_FORM_udata);
-                uleb128_size(val.map(|id| id.raw(unit.version())).unwrap_or(0))
+                uleb128_size(
+                    val.map(|id| id.raw(file_index_version(unit)))
+                        .unwrap_or(0),
+                )
             }
         })
     }
@@ -1591,10 +1594,25 @@ impl AttributeValue {
             }
             AttributeValue::FileIndex(val) => {
                 debug_assert_form!(constants::DW_FORM_udata);
-                w.write_uleb128(val.map(|id| id.raw(unit.version())).unwrap_or(0))?;
+                w.write_uleb128(
+                    val.map(|id| id.raw(file_index_version(unit)))
+                        .unwrap_or(0),
+                )?;
             }
         }
         Ok(())
+    }
+}
+
+/// The DWARF version that determines the raw value of a file index.
+///
+/// File indices refer to the file table of the unit's line program, and
+/// `.debug_line` and `.debug_info` may use different versions.
+fn file_index_version(unit: &Unit) -> u16 {
+    if unit.line_program.is_none() {
+        unit.version()
+    } else {
+        unit.line_program.version()
     }
 }
 
